@@ -36,7 +36,7 @@ META = {
                "thorough": "adds 5 states, d=4"},
     "trusted_base": ["picos evaluates its own affine expressions correctly (used for extraction, cross-checked at a random point)",
                      "textbook strong duality of the min-error and unambiguous discrimination SDPs", "the conic solvers (only used in replay)", "z3 5.1.0"],
-    "outside_claim": ["numerical optimality of the conic solver; POVM read-back from dual variables", "Helstrom / orthogonal / PGM bounds, unitary invariance (consequences of the definition)",
+    "outside_claim": ["numerical optimality of the conic solver; POVM read-back from dual variables", "Helstrom / orthogonal / PGM bounds, unitary invariance (consequences of the definition); decided instead, on the captured primal program: every guessing strategy M_i = q_i 1 is feasible with value sum q_i p_i Tr(rho_i), hence the optimum is at least the largest prior (T5, sdpcap/order.py)",
                       "instance data is concrete (picos realises constants into C arrays): the claim is per instance of the family, for all decision-variable values"],
     "assumptions": ["instances use dyadic rationals so that extraction is exact"],
 }
@@ -318,11 +318,55 @@ def earlier_result_tasks(fn, name):
                                      (lambda vs, ps, pd=pd: fn([np.array(v) for v in vs], list(ps), strategy="min_error", primal_dual=pd)), a, b))
     return out
 
+def guessing_family(vs, ps):
+    """T5 family for the min-error primal programs (discrimination and exclusion alike): ignore the system and announce outcome i
+    with probability q_i - M_i = q_i * identity, q a symbolic probability vector.  Its value is sum_i q_i p_i Tr(rho_i); hence the
+    discrimination optimum is at least the largest (and the exclusion optimum at most the smallest) p_i Tr(rho_i)."""
+    from sdpcap.order import cmat, fact_combination
+    from props.c11 import pfrac, rho_exact
+    n = len(vs)
+    rhos = [rho_exact(v) for v in vs]
+    d = rhos[0].shape[0]
+    eye = cmat(np.eye(d))
+
+    def family(b, variables):
+        import z3
+        q = [b.real(f"q_{i}") for i in range(n)]
+        assume = [lift(x).re.to_z3() >= 0 for x in q] + [z3.Sum([lift(x).re.to_z3() for x in q]) == 1]
+        pts = []
+        for v in variables:
+            i = int(v.name[v.name.index("[") + 1:v.name.index("]")])
+            pts.append(eye * q[i])
+        facts = [fact_combination([q[i]], [eye]) for i in range(n)]
+        val = 0
+        for i in range(n):
+            val = val + pfrac(ps[i]) * tr(rhos[i]) * q[i]
+        return {"points": pts, "assume": assume, "facts": facts, "value": lift(val).real}
+
+    def weights():
+        return [float(p) * float(np.real(np.trace(rho_of(v)))) for p, v in zip(ps, vs)]
+    return family, weights
+
+
+def bound_obligations(fn, name, sense, tier):
+    from sdpcap.order import FamilyTask
+    out = []
+    for nm, vs, ps in instances("quick"):
+        n = len(vs)
+        pp = ps if ps is not None else [1.0 / n] * n
+        fam, weights = guessing_family(vs, pp)
+        out.append(FamilyTask(name, {"instance": nm, "strategy": "min_error", "primal_dual": "primal", "sense": sense},
+                              (lambda vs=vs, ps=ps: fn([np.array(v) for v in vs], ps, strategy="min_error", primal_dual="primal")), fam,
+                              best=(lambda w=weights: max(w())) if sense == "max" else (lambda w=weights: min(w())),
+                              trusted=["a non-negative multiple of the identity is PSD"]))
+    return out
+
 
 def obligations(tier):
     obs = []
     obs += returned_certificate_tasks(state_distinguishability, "state_distinguishability.returned_measurement_is_a_povm_attaining_the_returned_value", tier)
     obs += earlier_result_tasks(state_distinguishability, "state_distinguishability.returned_measurement_is_unchanged_by_a_later_call")
+    obs += bound_obligations(state_distinguishability, "state_distinguishability.min_error_value_at_least_every_guessing_strategy_hence_the_largest_prior", "max", tier)
     from props.c09 import DualityTask
     for name, vs, ps in instances(tier):
         obs.append(DualityTask("state_distinguishability.min_error_dual_is_lagrange_dual_of_primal", {"instance": name},
